@@ -57,14 +57,29 @@ func sendCtl(kind string, d io.Writer, st ws.State) {
 	}
 }
 
-func runSend(client bool, bufN int, seq []msgSpec) *explore.Fail {
+func runSend(client bool, bufN int, seq []msgSpec, recycled bool) *explore.Fail {
 	d := env.NewDst()
 	st := ws.StateServerSide
 	if client {
 		st = ws.StateClientSide
 	}
-	w := wsutil.NewWriterBufferSize(d, st, ws.OpText, bufN)
 	var ms wsflate.MessageState
+	var w *wsutil.Writer
+	if recycled {
+		// the writer comes back from an earlier connection whose message died half way:
+		// fragments out, destination failed, never flushed; then Reset for this connection
+		bad := env.NewDst()
+		bad.FailAt = 1
+		w = wsutil.NewWriterBufferSize(bad, ws.StateClientSide, ws.OpBinary, bufN)
+		var old wsflate.MessageState
+		old.SetCompressed(true)
+		w.SetExtensions(&old)
+		w.Write(bytes.Repeat([]byte{'x'}, 3*bufN))
+		w.Flush()
+		w.Reset(d, st, ws.OpText)
+	} else {
+		w = wsutil.NewWriterBufferSize(d, st, ws.OpText, bufN)
+	}
 	w.SetExtensions(&ms)
 	S := w.Size()
 	type want struct {
@@ -355,8 +370,13 @@ func main() {
 							seq := append([]msgSpec{}, seq...)
 							client, bufN := client, bufN
 							t.Do(func() string { return fmt.Sprintf("client=%v buf=%d messages=%v", client, bufN, seq) }, func() *explore.Fail {
-								return runSend(client, bufN, seq)
+								return runSend(client, bufN, seq, false)
 							})
+							if len(seq) == 1 {
+								t.Do(func() string { return fmt.Sprintf("client=%v buf=%d recycled-writer messages=%v", client, bufN, seq) }, func() *explore.Fail {
+									return runSend(client, bufN, seq, true)
+								})
+							}
 						}
 						if len(seq) == depth {
 							return
